@@ -2,7 +2,12 @@
 package verifself
 
 import (
+	"bytes"
+	"encoding/json"
 	"fmt"
+	"os"
+	"path/filepath"
+	"strings"
 	"sync"
 
 	"github.com/GuanceCloud/platypus/internal/verifnd"
@@ -141,4 +146,78 @@ func SelfFmtVerb() {
 // SelfFmtRecursion must be reported (UNWIND): String formats its own receiver with %v.
 func SelfFmtRecursion() {
 	_ = fmt.Sprintf("%v", selfBad(1))
+}
+
+// ---- engine features added later ----
+
+type selfRec struct {
+	Name string `json:"name"`
+	N    int    `json:"n,omitempty"`
+	Tags []selfTag `json:"tags"`
+	skip int
+}
+type selfTag struct {
+	K string `json:"k"`
+	V int64  `json:"v"`
+}
+
+// SelfTypedJSON must hold: struct values go through encoding/json with their tags.
+func SelfTypedJSON() {
+	in := &selfRec{Name: "a\"<b>", N: 0, Tags: []selfTag{{"x", 1 << 62}, {"", -1}}, skip: 7}
+	b, err := json.Marshal(in)
+	verifnd.Assert(err == nil && string(b) == `{"name":"a\"\u003cb\u003e","tags":[{"k":"x","v":4611686018427387904},{"k":"","v":-1}]}`, "marshal-text")
+	var out selfRec
+	out.skip = 9
+	verifnd.Assert(json.Unmarshal(b, &out) == nil, "unmarshal")
+	verifnd.Assert(out.Name == in.Name && out.N == 0 && len(out.Tags) == 2 && out.Tags[0].V == 1<<62 && out.Tags[1].K == "" && out.skip == 9, "round-trip")
+	verifnd.Reach("done")
+}
+
+// SelfFprintf must hold: Fprintf / Fprintln / Fprint write through the writer.
+func SelfFprintf() {
+	var sb strings.Builder
+	fmt.Fprintf(&sb, "%s:%d", "f", 3)
+	fmt.Fprintln(&sb, "x", 1)
+	fmt.Fprint(&sb, "y")
+	var bb bytes.Buffer
+	fmt.Fprintf(&bb, "%05.1f|%q", 2.5, "q")
+	verifnd.Assert(sb.String() == "f:3x 1\ny" && bb.String() == "002.5|\"q\"", "written")
+	verifnd.Reach("done")
+}
+
+// SelfTypeAssert must be reported (PANIC): an unchecked type assertion on the wrong dynamic type
+// is a run-time panic of the target; the comma-ok form and a recovered one are not.
+func SelfTypeAssert() {
+	var v any = []byte("ab")
+	if _, ok := v.(string); ok {
+		verifnd.Assert(false, "comma-ok")
+	}
+	func() {
+		defer func() { verifnd.Assert(recover() != nil, "recoverable") }()
+		_ = v.(string)
+	}()
+	if verifnd.Int64() == 7 {
+		_ = v.(string)
+	}
+}
+
+// SelfGlobStat must hold: os.Stat and filepath.Glob over the in-engine file system.
+func SelfGlobStat() {
+	root := verifnd.VFSRoot()
+	defer verifnd.VFSCleanup()
+	verifnd.VFSMkdir(root + "/r[2]")
+	verifnd.VFSMkdir(root + "/r2")
+	verifnd.VFSWrite(root+"/r[2]/a.p", "x")
+	verifnd.VFSWrite(root+"/r2/b.p", "yy")
+	fi, err := os.Stat(root + "/r[2]")
+	verifnd.Assert(err == nil && fi.IsDir() && fi.Name() == "r[2]", "stat-dir")
+	fi, err = os.Stat(root + "/r2/b.p")
+	verifnd.Assert(err == nil && !fi.IsDir() && fi.Size() == 2, "stat-file")
+	_, err = os.Stat(root + "/nothing")
+	verifnd.Assert(err != nil, "stat-missing")
+	m, err := filepath.Glob(root + "/r[2]/*.p") // the bracket is a character class: matches r2
+	verifnd.Assert(err == nil && len(m) == 1 && m[0] == root+"/r2/b.p", "glob-class")
+	m, _ = filepath.Glob(root + "/r*/*.p")
+	verifnd.Assert(len(m) == 2, "glob-star")
+	verifnd.Reach("done")
 }
